@@ -77,6 +77,33 @@ Theorem C03_filter_followed_iff :
 Proof. exact find_preds_followed_iff. Qed.
 Print Assumptions C03_filter_followed_iff.
 
+(* The same in terms of manifest content only (filters composed with the walk):
+   [followed_spec s fs x y]: the source lists y as a predecessor of x and y's manifest (artifact
+   type = artifactType, else config media type; annotations) satisfies every filter;
+   [anc_spec] its reflexive-transitive closure, [rpath] its k-step paths. *)
+Theorem C03_roots_unlimited_by_content :
+  forall (s : source) (fs : list filter) (rank : nat -> nat) (limit : Z) (node : desc)
+         (fuel : nat) (roots : list desc),
+    all_served_ok s -> acyclic_source s rank -> (limit <= 0)%Z ->
+    find_roots fuel s fs limit node = Some roots ->
+    (forall r, In r roots ->
+       anc_spec s fs (d_id node) (d_id r) /\ forall y, ~ followed_spec s fs (d_id r) y) /\
+    (forall a, anc_spec s fs (d_id node) a -> (forall y, ~ followed_spec s fs a y) -> In a (map d_id roots)) /\
+    (forall a, anc_spec s fs (d_id node) a -> exists r, In r roots /\ anc_spec s fs a (d_id r)).
+Proof. exact find_roots_unlimited_by_content. Qed.
+Print Assumptions C03_roots_unlimited_by_content.
+
+Theorem C03_depth_bounds_by_content :
+  forall (s : source) (fs : list filter) (rank : nat -> nat) (limit : Z) (node : desc)
+         (fuel : nat) (roots : list desc),
+    all_served_ok s -> acyclic_source s rank -> (0 < limit)%Z ->
+    find_roots fuel s fs limit node = Some roots ->
+    (forall r, In r roots ->
+       exists k, (Z.of_nat k <= limit)%Z /\ rpath (followed_spec s fs) k (d_id node) (d_id r)) /\
+    (exists r, In r roots /\ anc_spec s fs (d_id node) (d_id r)).
+Proof. exact find_roots_depth_by_content. Qed.
+Print Assumptions C03_depth_bounds_by_content.
+
 (* The pinned source (before the fix: commit c24ca78 of the repository branch)
    violated it: fetchArtifactType answered with the config media type of an image
    manifest that declares artifactType (defect F9). *)
@@ -259,6 +286,9 @@ Proof. exact ex_acyclic. Qed.
 
 Example C03_ex_consistent : forall x, Forall (served_ok ex_source) (s_preds ex_source x).
 Proof. exact ex_served_ok. Qed.
+
+Example C03_ex_all_served_ok : all_served_ok ex_source.
+Proof. exact ex_all_served_ok. Qed.
 
 (* a ReferrerLister source (remote repository) serving complete referrer descriptors *)
 Example C03_ex_remote_ok : forall x, Forall (served_ok ex_remote) (s_preds ex_remote x).
